@@ -35,7 +35,13 @@ pub enum Op {
     /// flash-loan bracket: start, borrow(b,amt), [repay_all], end
     Flash { u: u16, b: u16, amt: u64, rel: u8, repay: bool },
     /// admin reconfiguration: kind 0 deposit limit, 1 borrow limit, 2 op state, 3 init limit,
-    /// 4 asset tag (val % 7: default, SOL, staked, kamino, drift, solend, invalid)
+    /// 4 asset tag (val % 7: default, SOL, staked, kamino, drift, solend, invalid),
+    /// 5 a whole new interest-rate configuration (curve + the five fee fields, derived from val through the curve
+    /// generator) by the curve admin, 6 the four weights (derived from val, any tuple — the program's validator
+    /// decides), 7 the global fee admin switches the group's program fees on / off (val & 1), 8 the global fee admin
+    /// edits the program fee rates (val) and — when val bit 63 is clear — propagates them to the group in the same
+    /// transaction, 9 oracle max age / max confidence, 10 risk tier (val & 1 = isolated),
+    /// 11 permissionless bad-debt settlement flag (val & 1)
     Configure { b: u16, kind: u8, val: u64 },
     /// bank sunset steps: 0 = admin allows token-less repayments on the bank, 1 = risk admin forces
     /// "repayments complete", 2 = risk admin purges user u's balance in the bank,
@@ -165,6 +171,7 @@ pub fn op_strategy() -> impl Strategy<Value = Op> {
         3 => (i(), i(), amt_rel(), any::<bool>()).prop_map(|(u, b, (amt, rel), repay)| Op::Flash { u, b, amt, rel, repay }),
         3 => (i(), 0u8..4, prop_oneof![Just(0u64), Just(1u64), Just(u64::MAX), amount_abs_strategy()]).prop_map(|(b, kind, val)| Op::Configure { b, kind, val }),
         2 => (i(), 0u64..7).prop_map(|(b, val)| Op::Configure { b, kind: 4, val }),
+        3 => (i(), prop_oneof![3 => Just(5u8), 3 => Just(6u8), 2 => Just(7u8), 2 => Just(8u8), 1 => Just(9u8), 1 => Just(10u8), 1 => Just(11u8)], any::<u64>()).prop_map(|(b, kind, val)| Op::Configure { b, kind, val }),
         4 => (i(), i(), prop_oneof![1 => Just(0u8), 1 => Just(1u8), 3 => Just(2u8), 2 => Just(3u8)]).prop_map(|(b, u, step)| Op::Sunset { b, u, step }),
         1 => i().prop_map(|u| Op::Transfer { u }),
         1 => i().prop_map(|u| Op::CloseAccount { u }),
@@ -813,9 +820,65 @@ impl Runner {
                     1 => o.borrow_limit = Some(*val),
                     2 => o.operational_state = Some(op_state((*val % 3) as u8)),
                     4 => o.asset_tag = Some((*val % 7) as u8),
+                    6 => {
+                        let aw_i = (*val % 1_100_001) as u32;
+                        let aw_m = aw_i.saturating_add(((*val >> 21) % 1_000_001) as u32).saturating_sub(((*val >> 61) % 2) as u32 * 50_000);
+                        let lw_m = 950_000 + ((*val >> 41) % 600_001) as u32;
+                        let lw_i = lw_m.saturating_add(((*val >> 51) % 600_001) as u32).saturating_sub(((*val >> 62) % 2) as u32 * 50_000);
+                        o.asset_weight_init = Some(w_mill(aw_i));
+                        o.asset_weight_maint = Some(w_mill(aw_m));
+                        o.liability_weight_init = Some(w_mill(lw_i));
+                        o.liability_weight_maint = Some(w_mill(lw_m));
+                    }
+                    9 => {
+                        o.oracle_max_age = Some([0u16, 1, 29, 30, 60, 100, 600, u16::MAX][(*val % 8) as usize]);
+                        o.oracle_max_confidence = Some([0u32, 1, 42_949_672, 429_496_729, u32::MAX][((*val >> 8) % 5) as usize]);
+                    }
+                    10 => o.risk_tier = Some(if *val & 1 == 1 { marginfi_type_crate::types::RiskTier::Isolated } else { marginfi_type_crate::types::RiskTier::Collateral }),
+                    11 => o.permissionless_bad_debt_settlement = Some(*val & 1 == 1),
                     _ => o.total_asset_value_init_limit = Some(*val),
                 }
                 st.ixs = vec![self.w.ix_configure_bank(bi, o, self.w.roles.admin)];
+                match kind {
+                    5 => {
+                        // a fresh curve + fee set from the same generator the worlds use, as a pure function of val
+                        use proptest::strategy::ValueTree;
+                        use proptest::test_runner::{Config, RngAlgorithm, TestRng, TestRunner};
+                        let mut seed = [0u8; 32];
+                        seed[..8].copy_from_slice(&val.to_le_bytes());
+                        let mut tr = TestRunner::new_with_rng(Config { failure_persistence: None, ..Config::default() }, TestRng::from_seed(RngAlgorithm::ChaCha, &seed));
+                        if let Ok(t) = curve_strategy().new_tree(&mut tr) {
+                            let c = t.current();
+                            st.ixs = vec![self.w.ix_configure_interest_only(bi, curve_opt(&c), self.w.roles.curve)];
+                        }
+                    }
+                    7 => {
+                        st.bank = None;
+                        st.ixs = vec![mfi_ix(
+                            anchor_lang::ToAccountMetas::to_account_metas(&marginfi::accounts::ConfigGroupFee { marginfi_group: self.w.group, global_fee_admin: self.w.roles.fee_admin, fee_state: self.w.fee_state }, Some(true)),
+                            anchor_lang::InstructionData::data(&marginfi::instruction::ConfigGroupFee { enable_program_fee: *val & 1 == 1 }),
+                        )];
+                    }
+                    8 => {
+                        st.bank = None;
+                        let fixed = ((*val % 7) * 10_000) as u32; // 0 .. 6 % APR
+                        let rate = (((*val >> 8) % 9) * 25_000) as u32; // 0 .. 20 % of the interest
+                        let edit = mfi_ix(
+                            anchor_lang::ToAccountMetas::to_account_metas(&marginfi::accounts::EditFeeState { global_fee_admin: self.w.roles.fee_admin, fee_state: self.w.fee_state }, Some(true)),
+                            anchor_lang::InstructionData::data(&marginfi::instruction::EditGlobalFeeState {
+                                admin: self.w.roles.fee_admin,
+                                fee_wallet: self.w.fee_wallet,
+                                bank_init_flat_sol_fee: self.w.spec.bank_init_flat_sol_fee,
+                                liquidation_flat_sol_fee: self.w.spec.liq_flat_sol_fee,
+                                program_fee_fixed: w_mill(fixed),
+                                program_fee_rate: w_mill(rate),
+                                liquidation_max_fee: w_mill(self.w.spec.liq_max_fee),
+                            }),
+                        );
+                        st.ixs = if *val >> 63 == 0 { vec![edit, self.w.ix_propagate_fee_state()] } else { vec![edit] };
+                    }
+                    _ => {}
+                }
             }
             Op::Sunset { b, u, step } => {
                 let mut bi = idx(*b, nb);
@@ -1309,7 +1372,7 @@ pub fn decode_case(data: &[u8]) -> (WorldSpec, Vec<Op>) {
                 let (amt, rel) = dec_amount(&mut r);
                 Op::Flash { u: r.u16(), b: r.u16(), amt, rel, repay: r.bool() }
             }
-            29 => Op::Configure { b: r.u16(), kind: r.u8() % 5, val: match r.u8() % 4 { 0 => 0, 1 => 1, 2 => u64::MAX, _ => r.u64() >> (r.u8() % 50) } },
+            29 => Op::Configure { b: r.u16(), kind: r.u8() % 12, val: match r.u8() % 4 { 0 => 0, 1 => 1, 2 => u64::MAX, _ => r.u64() >> (r.u8() % 50) } },
             30 => match r.u8() % 6 {
                 5 => Op::CloseBank { b: r.u16() },
                 4 => Op::Emissions { b: r.u16(), u: r.u16(), step: r.u8() % 3, val: r.u8() },
